@@ -81,6 +81,29 @@ class Nd:
         other.copied_from = self
         self.renamed = 1
         return self
+class Fb:
+    level = 0
+    try:
+        import json as json_mod
+        def dump(self):
+            return self.level
+    except ImportError:
+        def dump(self):
+            return None
+    if level == 0:
+        def load(self):
+            return self
+    else:
+        def load_other(self):
+            return None
+    for _step in (1, 2):
+        def stepper(self):
+            return self.level
+    with open(__file__) as _fh:
+        def from_file(self):
+            return self
+    def plain(self):
+        return self.load()
 def ident(p):
     return p
 def second(p, q):
@@ -134,7 +157,7 @@ def doc_typed(p):
     return C()
 '''
 
-ATOMS = ["A()", "B()", "C()", "LgStm()", "Stm()", "Nd()", "1", "'s'", "2.5", "A(1)", "B('t')", "[1, 2]", "{'k': 1}",
+ATOMS = ["A()", "B()", "C()", "LgStm()", "Stm()", "Nd()", "Fb()", "1", "'s'", "2.5", "A(1)", "B('t')", "[1, 2]", "{'k': 1}",
          "(1, 's')", "None", "True"]
 
 # (tag, template, merges?)   {v} new variable, {x} {y} inputs, {n} serial
@@ -258,7 +281,7 @@ class Builder:
         for _ in range(nstmts):
             self.stmt()
         if self.multi:
-            head = self.r.choice(['from lib import *', 'from lib import A, B, C, Nd, LgStm, Stm, gen_loop, relay, ident, second, pair, '
+            head = self.r.choice(['from lib import *', 'from lib import A, B, C, Nd, Fb, LgStm, Stm, gen_loop, relay, ident, second, pair, '
                                   'dflt, star, kwv, kwonly, closure, gen_two, deco_ident, deco2_ident, '
                                   'narrow, annotated, doc_typed'])
             files = {'lib.py': LIB, 'main.py': head + '\n' + '\n'.join(self.lines) + '\n'}
@@ -316,8 +339,25 @@ def __obs__(k, v):
         OBS.setdefault('attrs', {})[str(k)] = names
     except Exception:
         pass
+def class_attrs(ns):
+    out = {}
+    for v in list(ns.values()):
+        if isinstance(v, type) and v.__module__ in ('__main__', 'lib'):
+            names = set()
+            for c in v.__mro__:
+                if c.__module__ in ('__main__', 'lib'):
+                    names |= set(vars(c))
+            out[v.__name__] = sorted(n for n in names if not (n.startswith('__') and n.endswith('__')))
+            # the def statement (line) that created each function the class really has
+            out['%lines:' + v.__name__] = {n: f.__code__.co_firstlineno for n, f in vars(v).items()
+                                           if isinstance(f, types.FunctionType)}
+    return out
 try:
-    exec(compile(tree, os.path.join(d, 'main.py'), 'exec'), {'__name__': '__main__', '__obs__': __obs__})
+    NS = {'__name__': '__main__', '__obs__': __obs__, '__file__': os.path.join(d, 'main.py')}
+    exec(compile(tree, os.path.join(d, 'main.py'), 'exec'), NS)
+    OBS['class_attrs'] = class_attrs(NS)
+    if 'lib' in sys.modules:
+        OBS['class_attrs'].update(class_attrs(vars(sys.modules['lib'])))
     json.dump({'ok': True, 'obs': OBS}, sys.stdout)
 except BaseException as e:
     json.dump({'ok': False, 'err': type(e).__name__ + ': ' + str(e)[:80], 'obs': OBS}, sys.stdout)
